@@ -2,10 +2,13 @@
 //! code under test.  Plain serde_json / serde_smile for "is this exactly one
 //! well-formed document"; the harness's own small codecs for spellings.
 
-use serde_json::Value;
 
-pub fn json_one_doc(bytes: &[u8]) -> Option<Value> {
-    serde_json::from_slice::<Value>(bytes).ok()
+/// Exactly one well-formed JSON text (RFC 8259 grammar, UTF-8) and nothing but whitespace after
+/// it. Grammar only: a number beyond f64, nesting beyond any recursion limit and an escaped lone
+/// surrogate are well-formed, whatever a typed decoder later makes of them.
+pub fn json_one_doc(bytes: &[u8]) -> Option<()> {
+    std::str::from_utf8(bytes).ok()?;
+    serde_json::from_slice::<serde::de::IgnoredAny>(bytes).ok().map(|_| ())
 }
 
 pub fn smile_one_doc(bytes: &[u8]) -> bool {
